@@ -518,7 +518,69 @@ class C05(Check):
         except Exception as exc:  # noqa: BLE001
             stats.extra["memo_traffic"] = {"error": repr(exc)[:200]}
         v, self._fresh_violations = self._fresh_violations, []
+        for m in self.many_keys_probe(stats):
+            v.append(Violation("oracle", m, ["sweep:" + m[:70]]))
         return v
+
+    @staticmethod
+    def many_keys_probe(stats):
+        """hundreds of DISTINCT long-lived filters on one vertex (every one a memo key), flag toggles and mutations in
+        between, a builder call that fails half-way before it all: every cached answer equals a recomputation"""
+        from edgegraph.builder import adjlist
+        out = []
+        old = Vertex.NEIGHBOR_CACHING
+        try:
+            # a builder that raises in the middle of its loop (a lazily parsed adjacency hitting a malformed record)
+            Vertex.NEIGHBOR_CACHING = True
+            p, q = Vertex(), Vertex()
+
+            class Lazy(dict):
+                def items(self):
+                    yield p, [q]
+                    raise KeyError("malformed record")
+            try:
+                adjlist.load_adj_dict(Lazy({p: [q]}))
+            except Exception:  # noqa: BLE001
+                pass
+            hub = Vertex()
+            leaves = [Vertex() for _ in range(4)]
+            es = [DirectedEdge(hub, x) for x in leaves[:3]]
+            filters = [(lambda e, x, i=i: (i + id(x)) % 3 != 0) for i in range(300)]
+
+            def audit(label):
+                for i, f in enumerate(filters):
+                    got = [id(x) for x in helpers.neighbors(hub, 1, 1, f)]
+                    Vertex.NEIGHBOR_CACHING = False
+                    want = [id(x) for x in helpers.neighbors(hub, 1, 1, f)]
+                    Vertex.NEIGHBOR_CACHING = True
+                    if got != want:
+                        return "%s: neighbors(hub) with filter %d of 300 answers %d vertices cached, %d recomputed" % (label, i, len(got), len(want))
+                got = [id(x) for x in helpers.neighbors(hub)]
+                Vertex.NEIGHBOR_CACHING = False
+                want = [id(x) for x in helpers.neighbors(hub)]
+                Vertex.NEIGHBOR_CACHING = True
+                return None if got == want else "%s: neighbors(hub) answers %d vertices cached, %d recomputed" % (label, len(got), len(want))
+            steps = [("300 filters asked", lambda: None),
+                     ("then a link added", lambda: es.append(DirectedEdge(hub, leaves[3]))),
+                     ("then the flag switched off, a link re-pointed, the flag switched on",
+                      lambda: (setattr(Vertex, "NEIGHBOR_CACHING", False), setattr(es[0], "v2", leaves[3]), setattr(Vertex, "NEIGHBOR_CACHING", True))),
+                     ("then a link removed from the vertex side", lambda: hub.remove_from_link(es[1])),
+                     ("then explicit.unlink", lambda: __import__("edgegraph.builder.explicit", fromlist=["x"]).unlink(hub, leaves[2]))]
+            label = ""
+            for name, act in steps:
+                act()
+                label = (label + "; " + name) if label else name
+                for _rep in range(2):
+                    m = audit(label)
+                    if m:
+                        out.append(m)
+                        break
+                if out:
+                    break
+        finally:
+            Vertex.NEIGHBOR_CACHING = old
+        stats.extra["many_keys_probe"] = "run"
+        return out
 
     _fresh_violations = []
 
